@@ -74,7 +74,8 @@ def gen_desc(rng, with_par):
                     sts = [{'op': 'slice', 'sl': {'start': rng.choice([None, 1, 2]),
                                                   'stop': None, 'step': step}}]
                 elif op == 'batch':
-                    sts = [{'op': 'batch', 'bs': rng.randrange(1, 4), 'drop_last': False}]
+                    sts = [{'op': 'batch', 'bs': rng.randrange(1, 4),
+                            'drop_last': rng.random() < 0.4}]
                 elif op == 'items':
                     sts = [{'op': 'items'}]
                 elif op == 'concat':
@@ -101,6 +102,13 @@ def gen_desc(rng, with_par):
                     desc['stages'] += sts
                     a = b
                     break
+        if not with_par and a.sized and a.findexable and rng.random() < 0.2:
+            # an index-driven consumer at the end (no failures are injected here)
+            st = {'op': 'catch', 'exc': 'filter'}
+            b = pargen.abs_apply(a, st)
+            if b is not None:
+                desc['stages'].append(st)
+                a = b
         if with_par:
             par = pargen.gen_par_stage(rng, backends=('t',), max_extra_b=1)
             b = pargen.abs_apply(a, par)
@@ -166,7 +174,7 @@ def _iter_sequential(desc, k, epochs):
         j = 0
         while True:
             if k is not None and j == k:
-                it.close()
+                W.close_iter(it)
                 break
             try:
                 x = next(it)
@@ -180,7 +188,24 @@ def _iter_sequential(desc, k, epochs):
     return ctx.log
 
 
-def analyse(desc, log, delivered_ids=None):
+def tail_allowed(desc):
+    """batch(drop_last=True) traversed by iteration legitimately evaluates the
+    examples of the incomplete last batch; an index-driven consumer further down
+    (slice, catch, pool prefetch) never touches them"""
+    st = desc['stages']
+    for j, s_ in enumerate(st):
+        if s_['op'] == 'batch' and s_.get('drop_last'):
+            later = st[j + 1:]
+            index_driven = any(
+                x['op'] in ('slice', 'catch', 'cache') or
+                (x['op'] == 'prefetch' and (pargen.is_pool(x) or x.get('catch')))
+                for x in later)
+            if not index_driven:
+                return True
+    return False
+
+
+def analyse(desc, log, delivered_ids=None, exhausted=None):
     """Invariants over one recorded history.  delivered_ids: per epoch list of
     provenance tuples, used when 'deliver' events do not carry them."""
     L, width = allowance(desc)
@@ -235,6 +260,15 @@ def analyse(desc, log, delivered_ids=None):
                             'unaccounted: %s)' % (ep, e[0], ahead, L,
                                                   sorted(evaluated - accounted)[:6])))
                 break
+        else:
+            left = evaluated - accounted
+            if exhausted is not None and ep < len(exhausted) and exhausted[ep] and left \
+                    and not tail_allowed(desc):
+                out.append(('evaluated_unneeded', 'evaluated_unneeded:%s' % (
+                    'catch' if any(s_['op'] == 'catch' for s_ in desc['stages']) else 'other'),
+                    'epoch %d ran to exhaustion, yet source examples %s were evaluated although '
+                    'they are part of no delivered result and were not filtered'
+                    % (ep, sorted(left)[:8])))
     return out, peak, L
 
 
@@ -279,7 +313,8 @@ def run(case):
                 found, peak, L = [], 0, 0
             else:
                 ids = [[W.src_ids(x) for x in ep['out']] for ep in res['epochs']]
-                found, peak, L = analyse(desc, res['log'], ids)
+                found, peak, L = analyse(desc, res['log'], ids,
+                                         [ep['end'] == 'exhausted' for ep in res['epochs']])
             stats = tmp['stats']
             sig = res['stats']['sig']
             log = res['log']
@@ -287,7 +322,8 @@ def run(case):
             fired['thread_prefetch'] = 1
         elif mode == 'iter':
             log = _iter_sequential(desc, case['k'], case['epochs'])
-            found, peak, L = analyse(desc, log)
+            found, peak, L = analyse(desc, log, None,
+                                     [case['k'] is None] * case['epochs'])
         else:
             ctx = W.set_ctx(W.Ctx())
             ds = W.build(desc)
